@@ -217,6 +217,13 @@ def run_model_and_steps(chk, prop, tier, pkey=None):
             if not res.ok:
                 chk.error("YkConc4 model check %s did not pass (says nothing about the code): %s" % (cfg, tlc_tail(res, 12)))
         run_steps4(chk, prop, tier, pk, progs=STEP4_ISCAN[:2] if tier == "quick" else STEP4_ISCAN)
+        # the cursor ACROSS A NEXT-LAYER LINK (YkConc9): stack of two layers, the layer vanishes / is re-created / its link slot is reused under it
+        for cfg in (["a", "b"] if tier == "quick" else ["a", "b", "c", "d", "e", "f"]):
+            res = tlc("MC_Conc9", "MC_Conc9_%s.cfg" % cfg, workers=12, timeout=1500)
+            chk.add_tlc(res, "YkConc9 config %s: cursor across a next-layer link vs layer removal / creation / slot reuse (ScanOK, NvOK, LinOK, DescentOK, Quiescent, Termination under WF)" % cfg)
+            if not res.ok:
+                chk.error("YkConc9 model check %s did not pass (says nothing about the code): %s" % (cfg, tlc_tail(res, 12)))
+        run_steps8(chk, prop, tier, pk, cursor=True)
         return
     if pk in ("C04", "C06"):
         # scans over several borders collecting (version, node) pairs vs splits, interior insert, collapse, removes (YkConc4 programs g-j)
@@ -489,16 +496,21 @@ STEP8 = [("scan:0,rem:101,put:102", "1,100", "101"), ("scan:0,rem:101,put:101", 
          ("scan:0,scan:0,put:102", "1,100", ""), ("scan:0,put:2,put:100", "1,100", "101")]
 
 
-def run_steps8(chk, prop, tier, pk):
-    """S: full scans through a next-layer link (YkConc8) on the real code (fan-out 15) under random and PCT schedules; every logged access
-    must be the enabled model step with the same value (TraceConc8); ScanOK, NvOK, LinOK, DescentOK and Quiescent are evaluated on every
-    state of the accepted executions."""
+STEP9 = [("iscan:0,rem:101,put:102", "1,100", "101"), ("iscan:0,put:102,rem:1", "1,100", "101"), ("iscan:0,rem:101,put:101", "1,100", "101"), ("iscan:0,rem:101,put:2", "1,100", "101"),
+         ("iscan:0,iscan:0,put:102", "1,100", ""), ("iscan:0,put:2,put:100", "1,100", "101"), ("iscan:0,scan:0,rem:101", "1,100", "101,102")]
+
+
+def run_steps8(chk, prop, tier, pk, cursor=False):
+    """S: full scans through a next-layer link (YkConc8) / the cursor across the link (YkConc9, cursor=True) on the real code (fan-out 15)
+    under random and PCT schedules; every logged access must be the enabled model step with the same value (TraceConc8 / TraceConc9);
+    ScanOK, NvOK, LinOK, DescentOK and Quiescent are evaluated on every state of the accepted executions."""
     import os, re
     from common import tlc, tlc_tail, build, run, BUILD
     from tracecheck import write_cfg
     exe = build("stepdrv5", ["stepdrv5.cpp"], sessions=16)
     nruns = 20 if tier == "quick" else 150
-    for pi, (prog, i0, i1) in enumerate(STEP8[:3] if tier == "quick" else STEP8):
+    PROGS, module, what = (STEP9, "TraceConc9", "the cursor across a next-layer link") if cursor else (STEP8, "TraceConc8", "scans through a next-layer link")
+    for pi, (prog, i0, i1) in enumerate(PROGS[:3] if tier == "quick" else PROGS):
         out = ""
         bad = False
         for sched in ("random", "pct"):
@@ -516,13 +528,16 @@ def run_steps8(chk, prop, tier, pk):
         if bad:
             continue
         lines = out.splitlines()
-        tr = os.path.join(BUILD, "traces", "step8_%s_%d.ndjson" % (pk, pi))
+        tr = os.path.join(BUILD, "traces", "step%s_%s_%d.ndjson" % ("9" if cursor else "8", pk, pi))
         open(tr, "w").write(out)
-        cfg = write_cfg(os.path.join(BUILD, "cfg", "tc8_%s_%d.cfg" % (pk, pi)), constants={"F": 15, "Keys": "{1, 2, 100, 101, 102}", "Threads": "{0, 1, 2}", "Prog": "<- ProgT",
-                        "Init0": "{1}", "Init1": "{}", "NO_CHILD_ROOT_CLEAR": "FALSE", "NO_DESCENT_RECHECK": "FALSE", "SCAN_NO_CLEANUP": "FALSE"},
+        consts = {"F": 15, "Keys": "{1, 2, 100, 101, 102}", "Threads": "{0, 1, 2}", "Prog": "<- ProgT",
+                  "Init0": "{1}", "Init1": "{}", "NO_CHILD_ROOT_CLEAR": "FALSE", "NO_DESCENT_RECHECK": "FALSE", "SCAN_NO_CLEANUP": "FALSE"}
+        if cursor:
+            consts["ISCAN_NO_REWIND"] = "FALSE"
+        cfg = write_cfg(os.path.join(BUILD, "cfg", "tc%s_%s_%d.cfg" % ("9" if cursor else "8", pk, pi)), constants=consts,
                         invariants=["LinOK", "ScanOK", "NvOK", "DescentOK", "B0NonEmpty", "Quiescent"], constraint="Record")
-        res = tlc("TraceConc8", cfg, env={"TRACE": tr}, workers=1, timeout=600, deque=True)
-        chk.add_tlc(res, "step-level conformance of scans through a next-layer link, programs %s on B0={%s} layer={%s} (%d runs, %d events)" % (prog, i0, i1, 2 * nruns, len(lines)))
+        res = tlc(module, cfg, env={"TRACE": tr}, workers=1, timeout=600, deque=True)
+        chk.add_tlc(res, "step-level conformance of %s, programs %s on B0={%s} layer={%s} (%d runs, %d events)" % (what, prog, i0, i1, 2 * nruns, len(lines)))
         if res.ok:
             chk.traces += 2 * nruns
             chk.cov["step_events_conforming"] = chk.cov.get("step_events_conforming", 0) + len(lines)
